@@ -82,6 +82,7 @@ class Instr:
         self.missing = []        # methods that could not be instrumented
         self.broken = []         # log records that could not be produced (a private name moved)
         self.in_add = {}         # id(thread) -> depth inside add_done_callback / add_failure_cleanup
+        self.in_future_sx = {}   # id(thread) -> depth inside TransferFuture.set_exception
         self.in_cancel = {}      # id(thread) -> depth inside cancel()
         self.cancel_pending = {} # id(thread) -> True while the locked section has not run
         self.fut_task = {}       # id(ExecutorFuture) -> task id
@@ -178,9 +179,22 @@ class Instr:
             def set_exception(self_, exception, override=False):
                 orig(self_, exception, override)
                 I.log('set_exception', t=self_.transfer_id, exc=I.exc_desc(exception), override=bool(override),
-                      status=I.st(self_), stored=I.exc_id(I.ex(self_)))
+                      status=I.st(self_), stored=I.exc_id(I.ex(self_)),
+                      via_future=bool(I.in_future_sx.get(id(s.me()), 0)))
             return set_exception
         wrap(TC, 'set_exception', mk_set_exception)
+
+        # the USER's replacement of a finished transfer's outcome goes through TransferFuture.set_exception
+        def mk_future_sx(orig):
+            def set_exception(self_, exception):
+                me = id(s.me())
+                I.in_future_sx[me] = I.in_future_sx.get(me, 0) + 1
+                try:
+                    return orig(self_, exception)
+                finally:
+                    I.in_future_sx[me] -= 1
+            return set_exception
+        wrap(futures.TransferFuture, 'set_exception', mk_future_sx)
 
         def mk_cancel(orig):
             def cancel(self_, msg='', exc_type=futures.CancelledError):
